@@ -17,6 +17,10 @@ if ! cargo build --release --offline >$W/build.log 2>&1; then
   echo "PATCH $(basename $(dirname $PATCH)): does not compile with the harness"; tail -20 $W/build.log; rm -rf $W; exit 3
 fi
 cp /tmp/vst/target/release/vcheck $W/vcheck
+case "$IDS" in *C15*)
+  cargo build --profile checked --offline >>$W/build.log 2>&1
+  mkdir -p $W/verif/harness/target/checked && cp /tmp/vst/target/checked/vcheck $W/verif/harness/target/checked/vcheck ;;
+esac
 flock -u 8
 for ID in ${IDS//,/ }; do
   VERIF_ROOT=$W/verif VERIF_REPO=$W/repo $W/vcheck "$ID" "$TIER" >$W/out.log 2>&1
